@@ -33,6 +33,7 @@ func init() {
 			{"C04-R4c", "a watch record that may be absent is dereferenced only after a nil test", c04r4c},
 			{"C04-R6", "every request of a real type reaches the classifier", c04r6},
 			{"C04-R7", "a state-of-the-world unsubscribe is honoured whatever its nonce", c04r7},
+			{"C04-R8", "the recorded subscription is replaced, never edited in place", c04r8},
 		},
 	})
 }
